@@ -349,17 +349,29 @@ def run(eng, R):
             dct = [s for s in lp.body if isinstance(s, ast.Assign) and _txt(s.targets[0]) == "%s._loaded_result_dict" % fv and isinstance(s.value, ast.Call)]
             okd = len(dct) == 1
             kw = {k.arg: _txt(k.value) for k in dct[0].value.keywords} if okd else {}
-            ok = set(kw) == {"did_fit", "parameter_errors", "parameter_cor_mat", "parameter_cov_mat", "asymmetric_parameter_errors"} and kw.get("did_fit") == "self.did_fit" \
-                and bsrc.all_like("parameter_errors=self.parameter_errors[%s]" % ix, "parameter_cor_mat=_cor", "parameter_cov_mat=_cov", "asymmetric_parameter_errors=_asy")
+            # what each key holds, per path through the loop body (temporaries, conditional expressions and written-out helpers read through)
+            IXS = ("[self.parameter_names.index(_q1) for _q1 in %s.parameter_names]" % fv, "self._get_parameter_indices(%s)" % fv)
+            body_mod = ast.Module(body=lp.body, type_ignores=[])
+
+            def values(key):
+                return common.call_args_by_path(body_mod, lambda c: okd and c is dct[0].value, arg=lambda c: next((k.value for k in c.keywords if k.arg == key), None))
+
+            def plain(key, *want):
+                vs = {_txt(common.alpha_expr(e)) for _, e in values(key)}
+                return len(vs) == 1 and vs <= set(want)
+
+            ok = set(kw) == {"did_fit", "parameter_errors", "parameter_cor_mat", "parameter_cov_mat", "asymmetric_parameter_errors"} and plain("did_fit", "self.did_fit") \
+                and plain("parameter_errors", *["self.parameter_errors[%s]" % ix for ix in IXS])
             R.ob("U-res", "_update_singular_fits:result keys", ok, (us.file, lp.lineno), "each member must receive did_fit, errors, correlation, covariance and asymmetric errors (found %s)" % kw)
-            for loc, srcattr in (("_cor", "self.parameter_cor_mat"), ("_cov", "self.parameter_cov_mat")):
-                ok = bsrc.like("%s = %s if %s is not None: %s = %s[%s][:, %s]" % (loc, srcattr, loc, loc, loc, ix, ix))
-                R.ob("U-res", "_update_singular_fits:%s" % {"_cor": "_par_cor_mat", "_cov": "_par_cov_mat"}[loc], ok, (us.file, lp.lineno), "the member's matrix must be the rows and columns of %s at the member's parameter indices" % srcattr)
-            ok = bsrc.like("_asy = self._fitter.asymmetric_fit_parameter_errors_if_calculated if _asy is not None: _asy = _asy[%s]" % ix)
+            for key, srcattr in (("parameter_cor_mat", "self.parameter_cor_mat"), ("parameter_cov_mat", "self.parameter_cov_mat")):
+                ok = any(common.optional_selection(values(key), srcattr, "%s[%s][:, %s]" % (srcattr, ix, ix)) for ix in IXS)
+                R.ob("U-res", "_update_singular_fits:_par_%s" % key[10:], ok, (us.file, lp.lineno), "the member's matrix must be the rows and columns of %s at the member's parameter indices (None while there is none)" % srcattr)
+            ASY = "self._fitter.asymmetric_fit_parameter_errors_if_calculated"
+            ok = any(common.optional_selection(values("asymmetric_parameter_errors"), ASY, "%s[%s]" % (ASY, ix)) for ix in IXS)
             R.ob("U-res", "_update_singular_fits:asymmetric", ok, (us.file, lp.lineno), "asymmetric errors must be the rows at the member's parameter indices")
         gi = get_func(p, MF, "_get_parameter_indices")
         rs = return_exprs(gi.node)
-        ok = len(rs) == 1 and _txt(rs[0][1]) == "[self.parameter_names.index(_parameter_name) for _parameter_name in singular_fit.parameter_names]"
+        ok = len(rs) == 1 and _txt(common.alpha_expr(rs[0][1])) == "[self.parameter_names.index(_q1) for _q1 in singular_fit.parameter_names]"
         R.ob("U-res", "_get_parameter_indices", ok, (gi.file, gi.lineno), "a member's indices are the positions of its parameter names in the multi fit's parameter names, in the member's order")
 
     # ---------------------------------------------------------------- U-fix
